@@ -42,8 +42,20 @@ def main():
         sys.exit(1 if p.returncode else 0)
     depth = 6 if c.tier == "quick" else 8
     depth = int(os.environ.get("VP_DEPTH", depth))
-    deadline = c.t0 + c.budget(400, 1500)
-    res = histbfs.bfs(c, exe, depth, deadline, env, c.scratch, crash_sig=crash_sig, per_item_timeout=60.0)
+    deadline = c.t0 + c.budget(400, 3000)   # cut-offs, not targets
+    res = histbfs.bfs(c, exe, depth, deadline, env, c.scratch, crash_sig=crash_sig, per_item_timeout=600.0)
+    # a worker that ran out of time on an overloaded machine is not an observation: re-run every timeout alone with a
+    # generous limit; if the single run passes, the exploration lost a state expansion => harness error, not a verdict
+    for sig, detail, hist in res.violations:
+        if "timeout" in sig:
+            import subprocess
+            try:
+                p = subprocess.run([exe, "replay", hist or ";"], env=env, cwd=c.scratch, stdout=subprocess.PIPE,
+                                   stderr=subprocess.PIPE, text=True, timeout=900)
+                if p.returncode == 0:
+                    c.harness_error("a worker timed out on history %r but the history passes when run alone (overloaded machine?); re-run the check" % hist)
+            except subprocess.TimeoutExpired:
+                pass
     # one readable rendering per signature (of its shortest history); describing costs a process start each
     shortest = {}
     for sig, detail, hist in res.violations:
@@ -52,7 +64,7 @@ def main():
     readable = {sig: histbfs.describe(exe, h, env) for sig, h in shortest.items()}
     for sig, detail, hist in res.violations:
         c.violation(sig, detail + (" :: history: " + readable[sig] if shortest[sig] == hist else ""), {"history": hist})
-    if res.depth_completed < 4 and not res.violations:
+    if res.depth_completed < 4 and not res.violations and not res.budget_hit:   # out of budget = exit 0 with exhaustive:false
         c.harness_error("BFS did not complete depth 4 within the budget (depth_completed=%d)" % res.depth_completed)
     cover = read_cover(covdir)
     need = ["op:malloc:plain", "op:malloc:uhp", "op:malloc:uhp-own", "op:malloc:uhp-nosrc", "op:malloc:src-copy", "op:wrapMemory:wrap",
@@ -63,10 +75,12 @@ def main():
     need += ["op:free:uhp", "op:free:uhp-own", "op:clone:of-uhp"]
     # enforced only on runs without violations: violating transitions are not expanded, which cuts the space behind
     # them, and such a run fails anyway
-    if not res.violations:
+    if not res.violations and not res.budget_hit:
         for k in need:
             c.vacuity(cover.get(k, 0) > 0, "situation %r was never reached (coverage: %s)" % (k, sorted(cover.items())))
-    c.set_model_checking(res.states, res.transitions, res.transitions, res.samples,
+    # transitions on which the harness evaluated the oracle on the implementation state (its own counter)
+    judged = cover.get("judged-transitions", res.transitions)
+    c.set_model_checking(res.states, res.transitions, judged, res.samples,
                          exhaustive=(res.depth_completed >= depth or res.exhaustive))
     c.coverage.update({
         "depth_completed": res.depth_completed, "depth_target": depth, "per_depth": res.per_depth,
@@ -81,7 +95,7 @@ def main():
         "situations_reached": {k: cover[k] for k in sorted(cover)},
         "distinct_situations": len(cover),
         "distinct_violation_signatures": len(res.sig_counts),
-        "explanation": "every transition is executed on the real occa::device/memory/memoryPool (exploration runs on the implementation, so every explored trace is an implementation trace)",
+        "explanation": "every transition is executed on the real occa::device/memory/memoryPool (exploration runs on the implementation, so every explored trace is an implementation trace; traces_validated_against_impl is the harness's own count of judged transitions and also contains those of a layer that was cut off by the budget or lost with a dying worker)",
     })
     c.assumptions += [
         "state key = bytesAllocated, maxBytesAllocated, model maxima, allocation table (kind, bytes, counted), pool state (alignment, size, reserved, backing size, reservation offsets/sizes); memory handles are anonymous (addressed by position in the sorted table)",
